@@ -4,7 +4,7 @@
 ACCELS = {
     "ethos-u55-32": dict(product=0, macs=32, cores=1, banks=16, ofm_ub=(1, 1, 4), ifm_ub=(1, 1, 8), enum="Ethos_U55_32"),
     "ethos-u55-64": dict(product=0, macs=64, cores=1, banks=16, ofm_ub=(1, 1, 8), ifm_ub=(1, 1, 8), enum="Ethos_U55_64"),
-    "ethos-u55-128": dict(product=0, macs=128, cores=1, banks=24, ofm_ub=(2, 1, 8), ifm_ub=(2, 1, 8), enum="Ethos_U55_128"),
+    "ethos-u55-128": dict(product=0, macs=128, cores=1, banks=24, ofm_ub=(1, 2, 8), ifm_ub=(1, 2, 8), enum="Ethos_U55_128"),
     "ethos-u55-256": dict(product=0, macs=256, cores=1, banks=48, ofm_ub=(2, 2, 8), ifm_ub=(2, 2, 8), enum="Ethos_U55_256"),
     "ethos-u65-256": dict(product=1, macs=256, cores=1, banks=48, ofm_ub=(2, 2, 8), ifm_ub=(2, 2, 8), enum="Ethos_U65_256"),
     "ethos-u65-512": dict(product=1, macs=256, cores=2, banks=48, ofm_ub=(2, 2, 8), ifm_ub=(2, 2, 8), enum="Ethos_U65_512"),
@@ -14,3 +14,26 @@ ARCH_VERSION = (1, 0, 6)  # major, minor, patch
 FOURCC_COP1 = 0x31504F43
 DA_CONFIG, DA_CMDSTREAM, DA_NOP = 1, 2, 5
 MAX_STREAM_WORDS = 1 << 24
+
+# SHRAM bank granules per accelerator: index = element kind (IFM8, IFM16, IFM8 elementwise, IFM16 elementwise, IFM32, Acc16, Acc32, Acc40)
+GRANULES = {
+    "ethos-u55-32": [2, 2, 2, 2, 4, 4, 4, 4],
+    "ethos-u55-64": [2, 2, 2, 2, 4, 4, 4, 8],
+    "ethos-u55-128": [4, 4, 4, 4, 8, 4, 8, 12],
+    "ethos-u55-256": [8, 8, 8, 8, 16, 8, 16, 20],
+    "ethos-u65-256": [8, 8, 8, 8, 16, 8, 16, 20],
+    "ethos-u65-512": [8, 8, 8, 8, 16, 8, 16, 20],
+}
+G_IFM = {8: 0, 16: 1, 32: 4}
+G_IFM_EW = {8: 2, 16: 3, 32: 4}
+G_ACC = {16: 5, 32: 6, 40: 7}
+OFM_BLOCK_MAX = (32, 64, 128)  # h, w, d
+SHRAM_BANK_BYTES = 1024
+SHRAM_OUTPUT_BANKS = 2  # banks 0-1 are the output buffer; the IFM buffer starts at bank 2
+SUBKERNEL_MAX = 8
+
+
+def lut_start_bank(accel, uses_lut):
+    """first bank of the lookup-table area: the last two banks are always reserved on 24/48-bank configurations, and taken when a LUT is used on 16-bank ones"""
+    banks = ACCELS[accel]["banks"]
+    return banks - (2 if (banks > 16 or uses_lut) else 0)
